@@ -510,13 +510,15 @@ MANIFEST = {
     "text": "Theorems (Coq, every value a serde format can hand to the visitors: floats as all 64-bit patterns, i64/u64, strings, booleans, maps with any "
             "key sequence, sequences; both build profiles): a step threshold is accepted in the single-number form only as \"inf\" or a number that is "
             "not NaN, not infinite and not below zero (C39_single_form), and in the per-direction form each direction is \"inf\"/absent or such a number "
-            "(C39_parts, C39_part_accept; bit-level characterisation C39_good_number_bits); the thresholds of a loaded [synchronization] section are "
+            "(C39_parts, C39_part_accept; bit-level characterisation C39_good_number_bits); the converted value NtpDuration::from_seconds(f) of such a number is "
+            ">= 0, so every accepted direction is absent or a non-negative duration (C39_duration_nonneg, C39_thresholds_nonneg: integer-level proof over "
+            "the SpecFloat semantics of floor/sub/mul/casts); the thresholds of a loaded [synchronization] section are "
             "good for every entry list (C39_loaded_section); no value reaches the from_seconds debug assertion and debug/release agree "
             "(C39_no_crash_partial, C39_profiles_agree). Model of the repaired code (fix-c39).",
     "note": "PARTIAL: 'never crashes' is proved only for the numeric visitors; the TOML/JSON parsers, serde derive/flatten, the remaining fields and "
-            "Config::check are not modelled and are covered by generated + byte-mutated documents under catch_unwind (testing). Not proved: "
-            "from_seconds(f) >= 0 for accepted f (monitored at run time). Trusted: Coq kernel+vm_compute, FloatAxioms (Prim2SF_SF2Prim, eqb_spec, "
-            "ltb_spec) + classical/funext axioms via Flocq IEEE754.Bits, hand-written model, harness (own minimal serde Deserializer), driver. "
+            "Config::check are not modelled and are covered by generated + byte-mutated documents under catch_unwind (testing). "
+            "Trusted: Coq kernel+vm_compute, FloatAxioms (Prim2SF_SF2Prim, Prim2SF_valid, eqb_spec, ltb_spec, sub_spec, mul_spec) + classical/funext "
+            "axioms via Flocq IEEE754.Bits, hand-written model, harness (own minimal serde Deserializer), driver. "
             "Observation outside the property text: accumulated-step-panic-threshold accepts negative numbers (NtpDuration's deserializer only rejects NaN/inf).",
     "design_ref": "DESIGN.md 3 C39, 4 row 9",
 }
